@@ -25,6 +25,24 @@ structure KeyDoc where
 inductive Backend | ring | aws
   deriving DecidableEq, Repr
 
+/-- Cargo.toml `[features]`: the two features that bring a back end (`ring`, `aws_lc_rs`; each
+    turns on `crypto`).  key_pair.rs / ring_like.rs / sign_algo.rs guard every back-end specific
+    item either with `feature = "aws_lc_rs"` or with `all(feature = "ring", not(feature =
+    "aws_lc_rs"))`, and what both need with `feature = "crypto"` -/
+structure BackendFeatures where
+  ring : Bool
+  awsLcRs : Bool
+  deriving DecidableEq, Repr
+
+/-- `feature = "crypto"` -/
+def BackendFeatures.crypto (f : BackendFeatures) : Bool := f.ring || f.awsLcRs
+
+/-- which of the two guards holds: the back end the build uses (`ring_like.rs` 1-10) -/
+def BackendFeatures.backend (f : BackendFeatures) : Option Backend :=
+  if f.awsLcRs then some .aws          -- `cfg(feature = "aws_lc_rs")`
+  else if f.ring then some .ring       -- `cfg(all(feature = "ring", not(feature = "aws_lc_rs")))`
+  else none
+
 /-- `PrivateKeyDer::try_from(&[u8])` -/
 inductive Wrapper | pkcs8 | sec1 | pkcs1
   deriving DecidableEq, Repr
